@@ -16,6 +16,7 @@ from vf.indep import iso9660, udf as iudf
 from vf.indep.image import Image
 from vf.indep.views import udf_view
 from vf.propbase import EngineProperty
+from vf.runner import Collector
 
 ID = 'C10'
 LEVEL = 'exploration'
@@ -25,7 +26,7 @@ RULE = ('images = final write of generated programs on UDF configurations (profi
 ASSUMPTIONS = [
     'the independent UDF reader (vf/indep/udf.py) is a reading of ECMA-167 3rd ed. / UDF 2.60; validated by its own image-mutation self-test (vf/indep/selftest_udf.py)',
     'UDF symlink targets are generated without empty interior/trailing components and with components <= 254 bytes (ECMA-167 path components cannot express the former; the latter is refused)',
-    'files > 4 GiB only in the huge tier',
+    'files > 4 GiB: one pattern-file case per quick run, four per thorough run (sparse image file)',
 ]
 SHARDS = {'quick': 16, 'thorough': 16}
 CASES = {'quick': 150, 'thorough': 5000}
@@ -33,8 +34,10 @@ CASES = {'quick': 150, 'thorough': 5000}
 
 def strategy(tier):
     cfg = gen.cfg_st(udf=st.just(True))
-    progs = [gen.mixed(True, cfg), gen.links(cfg, True), gen.growshrink(cfg, True), gen.growshrink(cfg, False), gen.deep(cfg, True), gen.boot(cfg, True)]
-    names = ['mixed', 'links', 'growshrink', 'growshrink', 'deep', 'boot']
+    xcfg = gen.cfg_st(udf=st.just(True), rr=st.just(None), xa=st.just(False))
+    progs = [gen.mixed(True, cfg), gen.links(cfg, True), gen.growshrink(cfg, True), gen.growshrink(cfg, False), gen.deep(cfg, True), gen.boot(cfg, True),
+             gen.exactfill(xcfg, True), gen.exactfill(xcfg, False)]
+    names = ['mixed', 'links', 'growshrink', 'growshrink', 'deep', 'boot', 'exactfill', 'exactfill']
     return st.tuples(st.one_of(*[p.map(lambda x, n=n: dict(x, profile=n)) for p, n in zip(progs, names)]), st.none())
 
 
@@ -102,6 +105,81 @@ def nontrivial(run, cl):
 
 
 PROP = EngineProperty(ID, oracle, nontrivial, extra_classes)
-shard = PROP.shard_fn(strategy, CASES)
-replay = PROP.replay
-shrink = PROP.shrink
+_engine_shard = PROP.shard_fn(strategy, CASES)
+
+
+def huge_case(k, col):
+    """A multi-gigabyte file (several allocation descriptors) decoded by the independent reader."""
+    import io
+    import pycdlib
+    from vf.huge import PatternSource, SparseFile, pattern
+    shim.install('UTC')
+    size = 0xfffff800 + [5000, 1, 2048, 0xfffff800 + 1][k % 4]
+    case = {'huge': k, 'size': size}
+    col.case(case, True, ['huge-file'])
+    try:
+        iso = pycdlib.PyCdlib()
+        iso.new(interchange_level=3, udf='2.60')
+        iso.add_fp(PatternSource(3 + k, size), size, '/BIG.;1', udf_path='/big')
+        iso.add_fp(io.BytesIO(b'z' * 3000), 3000, '/Z.;1', udf_path='/z')
+        out = SparseFile()
+        iso.write_fp(out, blocksize=1 << 20)
+        iso.close()
+    except Exception as e:  # noqa
+        from vf.runner import exc_signature
+        col.fail('C10/huge/build/' + exc_signature(e), 'huge', 'mastering a UDF image with a %d-byte file raised %r' % (size, e), case)
+        return
+    info = iudf.read_udf(Image(out))
+    seen = set()
+    for clause, msg in (info or {}).get('findings', []):
+        if clause not in seen:
+            seen.add(clause)
+            col.fail('C10/huge/%s' % clause, clause, 'image with a %d-byte file: %s' % (size, msg[:300]), case)
+    e = (info or {}).get('tree', {}).get('/big')
+    if e is None:
+        col.fail('C10/huge/missing', 'udf-tree', 'the %d-byte file is not in the UDF tree' % size, case)
+    elif e['length'] != size:
+        col.fail('C10/huge/information-length', 'udf-tree', 'information length %d, file has %d bytes' % (e['length'], size), case)
+    else:
+        # spot-check the bytes at the extent boundaries through the reader's allocation descriptors
+        pos = 0
+        for ext, ln in e.get('extents', []):
+            if ext is None:
+                col.fail('C10/huge/unrecorded-extent', 'udf-tree', 'allocation descriptor at file offset %d is not recorded / not resolvable' % pos, case)
+                break
+            got = Image(out).read(ext * 2048, 32)
+            if got != pattern(3 + k, pos, 32, size):
+                col.fail('C10/huge/extent-content', 'udf-tree', 'allocation descriptor at file offset %d points at sector %d which does not hold the file\'s bytes' % (pos, ext), case)
+                break
+            pos += ln
+
+
+def shard(seed, tier, shard_no, nshards):
+    res = _engine_shard(seed, tier, shard_no, nshards)
+    if (tier == 'quick' and shard_no == 1) or (tier == 'thorough' and shard_no < 4):
+        col = Collector()
+        huge_case(seed + shard_no, col)
+        r2 = col.result()
+        res['evaluations'] += r2['evaluations']
+        res['nontrivial'] |= r2['nontrivial']
+        for k, v in r2['classes'].items():
+            res['classes'][k] = res['classes'].get(k, 0) + v
+        for sgn, lst in r2['failures'].items():
+            res['failures'].setdefault(sgn, []).extend(lst)
+        for sgn, n in r2['fail_counts'].items():
+            res['fail_counts'][sgn] = res['fail_counts'].get(sgn, 0) + n
+    return res
+
+
+def _replay(case, col):
+    if isinstance(case, dict) and 'huge' in case:
+        return huge_case(case['huge'], col)
+    return PROP.replay(case, col)
+
+
+def _shrink(case, sig):
+    if isinstance(case, dict):
+        return case
+    return PROP.shrink(case, sig)
+replay = _replay
+shrink = _shrink
